@@ -116,7 +116,8 @@ def render(spec, style, name):
         order = spec.get("order", ids)
         vals = {s: (len(ids) - 1 - k if style == "intenum" else k + 1) for k, s in enumerate(order)}
         L += [f"class E_{name}({base}):"] + [f"    {s} = {vals[s]}" for s in order] + [""]
-        fin = f", final=E_{name}.{spec['final']}" if spec["final"] else ""
+        # a single member for Enum, a frozenset of members for IntEnum: `final` takes one state or any iterable of states
+        fin = "" if not spec["final"] else (f", final=E_{name}.{spec['final']}" if style == "enum" else f", final=frozenset({{E_{name}.{spec['final']}}})")
         body.append(f"    _ = States.from_enum(E_{name}, initial=E_{name}.{ids[0]}{fin})")
         P = "_."
     elif style == "states_dict":
